@@ -210,7 +210,8 @@ def calibration_oracle(case):
     else:
         L = case["L"]
         steps = case["steps"] if "steps" in case else case["epochs"] * L
-        truncated = "epochs" in case and int(case["epochs"] / (1 / L)) != steps
+        truncated = ("epochs" in case and int(case["epochs"] / (1 / L)) == steps - 1 and {h[2] for h in r["hist"]} == {steps - 1}
+                     and {h[1] for h in r["hist"]} == {1 / L})
         e = real_eps(case["mech"], r["sigma"], 1 / L, steps, case["delta"])
         what = f"{case['mech']} accountant, q=1/{L}, steps={steps}"
     if e > t:
@@ -293,20 +294,29 @@ def end_to_end_oracle(case):
 def _end_to_end_oracle(case):
     mech, L, E, t, d = case["mech"], case["L"], case["epochs"], case["target"], case["delta"]
     e = engine_facts(mech, L, E, t, d, case.get("bs", 1), case.get("extra", 0), case.get("real_loop", False))
+    return judge_end_to_end(case, e)
+
+
+def judge_end_to_end(case, e):
+    mech, L, E, t, d = case["mech"], case["L"], case["epochs"], case["target"], case["delta"]
     consistent = e["len_dp"] == L and e["cal_steps"] == E * L
+    if e["acc_steps"] != e["nsteps"] or e["nsteps"] != E * e["len_dp"]:
+        return ("C08:steps-not-accounted", f"({mech}, L={L}, epochs={E}): {e['nsteps']} steps taken over {E} epochs of a loader of length {e['len_dp']}, {e['acc_steps']} accounted", {"facts": e})
     if e["eps"] > t:
-        if e["len_dp"] != L:
+        # the two manifestations of finding D14 have an exact signature; anything else is new
+        q_ok = e["cal_q"] == 1 / L and e["acc_q"] == 1 / e["len_dp"] and e["sampler_q"] == 1 / L
+        if q_ok and e["len_dp"] == L - 1 == int(1 / (1 / L)) and e["cal_steps"] == int(E / (1 / L)):
             key = "C08:overshoot:dp-loader-length-truncated"
-        elif e["cal_steps"] != E * L:
+        elif q_ok and e["len_dp"] == L and e["cal_steps"] == E * L - 1 == int(E / (1 / L)):
             key = "C08:overshoot:calibration-steps-truncated"
-        else:
+        elif consistent:
             key = "C08:overshoot:consistent-bookkeeping"
+        else:
+            key = "C08:overshoot:inconsistent-bookkeeping"
         return (key, f"make_private_with_epsilon({mech}, len(loader)={L}, epochs={E}, target_epsilon={t}, delta={d}): calibrated for (q={e['cal_q']!r}, steps={e['cal_steps']}), "
                      f"trained {e['nsteps']} steps at accounted q={e['acc_q']!r} (len(dp_loader)={e['len_dp']}) -> get_epsilon={e['eps']!r} > target", {"facts": e})
     if consistent and t - e["eps"] > 0.01:
         return ("C08:undershoot:consistent-bookkeeping", f"({mech}, L={L}, epochs={E}, target={t}): final eps {e['eps']!r} more than the tolerance below target", {"facts": e})
-    if e["acc_steps"] != e["nsteps"]:
-        return ("C08:steps-not-accounted", f"{e['nsteps']} steps taken, {e['acc_steps']} accounted", {"facts": e})
     return None
 
 
@@ -390,6 +400,7 @@ def search(ctx, v):
                 else:
                     L, E = rng.randint(1, 600), rng.choice([1, 2, 3, 5])
                 plan.append((mech, L, E, rng.choice([1.0, 3.0, 8.0])))
+    done = []
     for j, (mech, L, E, t) in enumerate(plan):
         bs = rng.choice([1, 1, 2, 3])
         extra = rng.randrange(bs)
@@ -398,4 +409,32 @@ def search(ctx, v):
         consistent = int(1 / (1 / L)) == L and int(E / (1 / L)) == E * L
         ctx.case(("e2e", mech, L, E, t), nontrivial=True, kind=f"e2e:{mech}:" + ("consistent" if consistent else "truncating"))
         ctx.count("search:end-to-end")
-        report(ctx, end_to_end_oracle(case), case)
+        try:
+            e = engine_facts(mech, L, E, t, case["delta"], bs, extra, case["real_loop"])
+        except ValueError as ex:
+            if "different signs" in str(ex) or "budget is too low" in str(ex):
+                ctx.count("search:end-to-end:accountant-refused")
+                continue
+            raise
+        done.append((case, e))
+        report(ctx, judge_end_to_end(case, e), case)
+    # engine bookkeeping vs the binary64 model (correspondence of the step/rate derivations)
+    vl, vs = norm(v["len"]), norm(v["engine_steps"])
+    lines = []
+    for case, e in done:
+        lines.append(f"len {vl} {case['L']}")
+        lines.append(f"steps {vs} {vl} {case['epochs']} {case['L']}")
+    reps = ctx.lean_driver("C08", lines)
+    for k, (case, e) in enumerate(done):
+        lm, qs, qa = reps[2 * k].split()
+        sc, st = reps[2 * k + 1].split()
+        impl = (e["len_dp"], core.f2h(e["cal_q"]), core.f2h(e["acc_q"]), e["cal_steps"], e["nsteps"], core.f2h(e["sampler_q"]))
+        model = (int(lm), qs, qa, int(sc), int(st), qs)
+        if impl == model:
+            ctx.validated()
+        else:
+            ctx.mismatch("engine_bookkeeping", case, impl, model, oracle=end_to_end_oracle)
+
+
+def norm(x):
+    return x if x in ("asCoded", "repaired") else "asCoded"
